@@ -213,7 +213,7 @@ def gen_file(ck, cfg):
             nl = rng.choice(["-", "u", "m", "n"])
             if kind == "r":
                 buf = rng.choice([1, 1, 0])
-                beh.append({"a": "open", "arg": {"m": "r", "nl": nl, "fl": 0, "buf": buf, "via": via}})
+                beh.append({"a": "open", "arg": {"m": "r", "nl": nl, "fl": 0, "buf": buf, "via": via, "re": 0}})
                 pos = 0
                 for _ in range(rng.randrange(3, cfg["fsteps"])):
                     op = rng.choice(["read"] * 4 + ["getc"] * 2 + ["skip", "seek", "seek"] + (["peekr"] if buf else []))
@@ -246,7 +246,7 @@ def gen_file(ck, cfg):
             m = "a" if kind == "a" else ("w" if kind == "w" else rng.choice(["w", "a"]))
             fl = rng.choice([0, 1]) if nl != "-" else 0
             buf = 1 if kind == "push" else rng.choice([1, 1, 1, 0])
-            beh.append({"a": "open", "arg": {"m": m, "nl": nl, "fl": fl, "buf": buf, "via": via}})
+            beh.append({"a": "open", "arg": {"m": m, "nl": nl, "fl": fl, "buf": buf, "via": via, "re": 0}})
             pos = size if m == "a" else 0
             for _ in range(rng.randrange(2, cfg["fsteps"])):
                 if kind == "push":
@@ -259,7 +259,16 @@ def gen_file(ck, cfg):
                     else:
                         beh.append({"a": op, "arg": {"x": 0}})
                     continue
-                op = rng.choice(["write"] * 5 + ["endl", "zeros", "flush", "seek"])
+                op = rng.choice(["write"] * 5 + ["endl", "zeros", "flush", "seek", "reopen"])
+                if op == "reopen":
+                    # the same object is opened again without close: the old stream's data must be in the file
+                    size = max(size, pos)
+                    m, nl = rng.choice(["w", "a"]), rng.choice(["-", "u", "m", "n"])
+                    fl = rng.choice([0, 1]) if nl != "-" else 0
+                    buf = rng.choice([1, 1, 0])
+                    beh.append({"a": "open", "arg": {"m": m, "nl": nl, "fl": fl, "buf": buf, "via": via, "re": 1}})
+                    pos = size if m == "a" else 0
+                    continue
                 if op == "write":
                     part = 1 if not buf else rng.choice([1, 1, 1, 2, 3, 8])
                     n = rng.choice(STEPS)
@@ -320,6 +329,67 @@ def gen_file_wrap():
                    {"a": "read", "arg": {"n": 300, "part": 1}},
                    {"a": "read", "arg": {"n": 200, "part": 2}},
                    {"a": "close", "arg": {"x": 0}}]
+            behs.append(beh)
+    return behs
+
+
+def gen_read_sweep():
+    """deterministic: records whose size does not divide the read buffer (the buffered data wraps around the storage
+    end after some of them), with a position query or a small relative move after every count of records, then
+    reads that show where the stream really is"""
+    behs = []
+    pre = [(i * 7 + 3) % 251 for i in range(41)]
+    i = 0
+    for part in (2, 3, 5, 7):
+        for k in range(1, 7):
+            for d in (0, -1, 2):
+                via, buf = ("cxx" if i % 2 else "c"), (0 if i % 5 == 4 else 1)
+                i += 1
+                beh = [{"a": "init", "arg": {"sec": "file", "pre": pre}},
+                       {"a": "open", "arg": {"m": "r", "nl": "-", "fl": 0, "buf": buf, "via": via, "re": 0}}]
+                beh += [{"a": "read", "arg": {"n": 1, "part": part}} for _ in range(k)]
+                beh += [{"a": "seek", "arg": {"off": d, "wh": "cur"}}, {"a": "read", "arg": {"n": 4, "part": 1}},
+                        {"a": "getc", "arg": {"x": 0}}, {"a": "seek", "arg": {"off": 0, "wh": "cur"}},
+                        {"a": "close", "arg": {"x": 0}}]
+                behs.append(beh)
+    return behs
+
+
+def gen_raw_sweep():
+    """deterministic: every start offset of small reader and writer rings, data delivered in pieces so that it wraps
+    around the storage end at every position, a peek (with and without target) after every receive and delivery"""
+    behs = []
+    i = 0
+    for cap in (8, 16):
+        for off in range(cap):
+            via = "cxx" if i % 2 else "c"
+            i += 1
+            pk = [{"a": "peek", "arg": {"max": 9, "dst": 1}}, {"a": "peek", "arg": {"max": 2, "dst": 1}}, {"a": "peek", "arg": {"max": 9, "dst": 0}}]
+            rv = [{"a": "recv", "arg": {"x": 0}}]
+            beh = [{"a": "init", "arg": {"sec": "raw", "via": via, "wcap": cap, "woff": (off * 3 + 1) % cap, "rcap": cap, "roff": off, "grow": 2}},
+                   {"a": "push", "arg": {"data": [11, 12, 13, 14, 15]}}, {"a": "done", "arg": {"x": 0}}, {"a": "flush", "arg": {"n": ALL}},
+                   {"a": "deliver", "arg": {"n": 2}}] + rv + pk + [{"a": "deliver", "arg": {"n": 1}}] + pk + rv + rv + pk
+            beh += [{"a": "deliver", "arg": {"n": ALL}}] + pk + rv + pk
+            beh += [{"a": "push", "arg": {"data": [21, 22, 23]}}, {"a": "done", "arg": {"x": 0}}, {"a": "flush", "arg": {"n": 2}},
+                    {"a": "flush", "arg": {"n": ALL}}, {"a": "deliver", "arg": {"n": 1}}] + pk + rv + [{"a": "deliver", "arg": {"n": ALL}}] + pk + rv + pk
+            behs.append(beh)
+    return behs
+
+
+def gen_reopen():
+    """deterministic: a stream with written, not yet flushed data is opened again (same object, no close in between)"""
+    behs = []
+    for via in ("c", "cxx"):
+        for m1, m2, n in (("w", "w", 3), ("w", "a", 5), ("a", "r", 3), ("w", "r", 20), ("a", "w", 9)):
+            beh = [{"a": "init", "arg": {"sec": "file", "pre": [40, 41, 42, 43]}},
+                   {"a": "open", "arg": {"m": m1, "nl": "u", "fl": 0, "buf": 1, "via": via, "re": 0}},
+                   {"a": "write", "arg": {"data": [(j * 3 + 1) % 200 for j in range(n)], "part": 1}},
+                   {"a": "open", "arg": {"m": m2, "nl": "-", "fl": 0, "buf": 1, "via": via, "re": 1}}]
+            if m2 == "r":
+                beh += [{"a": "read", "arg": {"n": 30, "part": 1}}, {"a": "getc", "arg": {"x": 0}}]
+            else:
+                beh += [{"a": "write", "arg": {"data": [7, 8], "part": 1}}, {"a": "flush", "arg": {"x": 0}}]
+            beh += [{"a": "close", "arg": {"x": 0}}]
             behs.append(beh)
     return behs
 
@@ -387,7 +457,7 @@ def run_part(ck, tier):
 
         # 2. binding B inputs meanwhile: recorded runs of the real code
         hist_f = gen_framed(ck, cfg)
-        hist_r = gen_raw(ck, cfg) + gen_file_wrap() + gen_file(ck, cfg)
+        hist_r = gen_raw_sweep() + gen_raw(ck, cfg) + gen_file_wrap() + gen_read_sweep() + gen_reopen() + gen_file(ck, cfg)
         recs_f, _ = vlib.run_driver(exe, vlib.to_script(hist_f), timeout=1200)
         recs_r, _ = vlib.run_driver(exe, vlib.to_script(hist_r), timeout=1200)
         ev_f = strip(vlib.merge_trace(hist_f, recs_f))
